@@ -1,5 +1,6 @@
 ENTRY = {'modules': ['VirtioVerif.Props.C13'],
- 'assumptions': ['device contract for read_consistent (explicit hypotheses of Props.C13.Contract): the '
+ 'assumptions': ['legacy MMIO devices have no configuration generation (read_config_generation is the constant 0 there, /repo 058e2dd); C13\'s untorn clause is claimed for modern MMIO and PCI (and any transport with a real generation counter); Props.C13.legacy_contract_unsatisfiable and legacy_read_can_tear show that no contract can hold and a torn value can be returned on a legacy device whose configuration changes; legacy MMIO remains in the bounds part',
+                 'device contract for read_consistent (explicit hypotheses of Props.C13.Contract): the '
                  'generation register shows a change counter modulo 2^32 (MMIO) / 2^8 (PCI) that increases '
                  'whenever the configuration changes, and fewer than that many changes happen inside one '
                  'iteration of the loop; shown satisfiable (contract_satisfiable) and necessary '
@@ -21,7 +22,7 @@ ENTRY = {'modules': ['VirtioVerif.Props.C13'],
                 'exact coverage / memory effect on the byte-level bus trace. Untorn reads: theorem '
                 'read_consistent_untorn for every closure (decision tree of reads), schedule, start time and '
                 'retry count under the stated device contract; the five multi-field reads named in the '
-                'property are executed in the real drivers on ModelTransport, MMIO (legacy, modern) and PCI '
+                'property are executed in the real drivers on ModelTransport, modern MMIO and PCI '
                 'with a configuration change + generation bump inserted before every read position and every '
                 'pair of positions; the returned value must be one exposed under a single generation and '
                 "must equal the model's.",
